@@ -149,6 +149,28 @@ def alias_ok(k: int) -> bool:
     return sorted(paths) == sorted(want)
 
 
+def alias_keys_ok(k: int) -> bool:
+    """Key-name search on: an alias of an anchored value that sits under a matching key is still an alias."""
+    k = realize(k)
+    incl, k = k % 2, k // 2
+    keymatch, k = k % 2, k // 2
+    order = k % 2
+    anc = PlainScalarString("common", anchor="nm")
+    first = cmap(("name" if keymatch else "zzz", anc))
+    second = cmap(("label", anc), ("other", "common"))
+    doc = cmap(("s", first), ("o", second)) if order == 0 else cmap(("o0", cmap(("plain", "x"))), ("s", first), ("o", second))
+    terms = SearchTerms(False, M.CONTAINS, ".", "name" if keymatch else "common")
+    paths = [str(p) for p in yp.search_for_paths(LOG, EYAMLProcessor(LOG, doc), doc, terms, PathSeparators.DOT,
+                                                 search_values=True, search_keys=True,
+                                                 include_value_aliases=bool(incl))]
+    note(include_value_aliases=bool(incl), key_matches=bool(keymatch), reported=paths)
+    if keymatch:
+        want = ["s.name"]            # the key matches; 'common' does not contain 'name'
+    else:
+        want = ["s.zzz", "o.other"] + (["o.label"] if incl else [])
+    return sorted(paths) == sorted(want)
+
+
 def expression_ok(k: int) -> bool:
     """get_search_term turns an operator expression into the corresponding search terms."""
     k = realize(k)
@@ -194,6 +216,8 @@ def shards(tier, seed):
                              desc="%s  %s %s %r" % (SHAPES[shape][1], ["", "values+keys", "keys only"][mode], op, term)))
     out.append(shard(PID, "alias", "harness.c07", "alias_ok(k)", [("k", "int")], ["0 <= k < 8"], family="alias", budget=600,
                      kind="S", desc="anchored scalar with two aliases x include_value_aliases x value matches x inverted"))
+    out.append(shard(PID, "alias_keys", "harness.c07", "alias_keys_ok(k)", [("k", "int")], ["0 <= k < 8"], family="alias", budget=600,
+                     kind="S", desc="anchored value under a (non-)matching key, alias elsewhere, key-name search on"))
     out.append(shard(PID, "expression", "harness.c07", "expression_ok(k)", [("k", "int")], ["0 <= k < %d" % N_EXPR],
                      family="expression", budget=300, kind="S", desc="get_search_term on %d operator expressions" % N_EXPR))
     return out
